@@ -42,6 +42,7 @@ type C05Case struct {
 	KeyInfo bool           `json:"key_info"`
 	Relay   string         `json:"relay_state"`
 	Mut     []Defect       `json:"mutations,omitempty"`
+	Noise   bool           `json:"noise,omitempty"`
 }
 
 var c05PostMutations = []Defect{
@@ -89,6 +90,7 @@ func genC05Case(t *rapid.T) C05Case {
 		c.KeyName = spec.SPs[c.SP].KeyNames[0]
 		c.KeyInfo = rapid.IntRange(0, 3).Draw(t, "keyinfo") != 0
 	}
+	c.Noise = rapid.IntRange(0, 2).Draw(t, "noise") == 0
 	n := rapid.SampledFrom([]int{0, 1, 1, 1, 2}).Draw(t, "nmut")
 	cat := c05PostMutations
 	if c.Binding == "redirect" {
@@ -543,7 +545,14 @@ type c05Outcome struct {
 }
 
 func c05Run(c C05Case) c05Outcome {
-	w := mustBuild(c.Spec)
+	wspec := c.Spec
+	if c.Noise {
+		wspec = withNoise(wspec)
+	}
+	w := mustBuild(wspec)
+	if c.Noise {
+		runNoise(w, wspec)
+	}
 	now := time.Now()
 	rd := c05Render(c, now)
 	rep := obs.Do(w.Handler, rd.HR)
